@@ -1086,7 +1086,7 @@ func isDigit(r rune) bool {
 func allSpaceWithNewline(str string) bool {
 	var seenNewline = false
 	for _, ch := range str {
-		if !unicode.IsSpace(ch) {
+		if !isSpaceEOL(ch) {
 			return false
 		}
 		if isEndOfLine(ch) {
